@@ -14,7 +14,9 @@ RULE = (
     "all ordered pairs (S,T) of multisets of <= n points of the integer lattice {0<=b<=d<=G} "
     "(diagonal points, repeats, empty diagram included); per pair: 5 affine variants, all row "
     "permutations, list/int/float containers, appended infinite-death points, ALL rank orders of "
-    "the matching routine's string-keyed sets (M+N <= bound), each under K real PYTHONHASHSEEDs. "
+    "the matching routine's string-keyed sets (M+N <= bound), each under K real PYTHONHASHSEEDs; plus medium "
+    "diagrams of 4..12 (thorough ..20) points (half-integer-rounded and generic Weyl families), all ordered pairs "
+    "against an independent threshold-search reference under ~20 systematic rank orders each. "
     "state = one (S,T) pair; transition = one execution of persim.bottleneck; non-trivial = the "
     "optimum mixes diagonal and cross pairings, or candidate thresholds tie, or the optimum is "
     "strictly inside the candidate list."
@@ -31,10 +33,44 @@ BOUNDS = {
 
 
 def bounds(tier):
-    return {"spaces": BOUNDS[tier], "aff": AFF, "hash_groups": HASH_GROUPS[tier]}
+    return {"spaces": BOUNDS[tier], "aff": AFF, "hash_groups": HASH_GROUPS[tier], "medium_family": MEDIUM[tier]}
+
+
+MEDIUM = {"quick": {"n": [4, 5, 6, 8, 10, 12], "k": 2}, "thorough": {"n": [4, 5, 6, 7, 8, 10, 12, 15, 20], "k": 5}}
+
+
+def medium_diagram(n, k, lattice):
+    """Deterministic medium-size diagrams (Weyl sequence); `lattice` rounds to half-integers (many ties)."""
+    import math
+
+    phi = (math.sqrt(5.0) - 1.0) / 2.0
+    s2 = math.sqrt(2.0) - 1.0
+    pts = []
+    for i in range(1, n + 1):
+        b = (((i + 11 * k) * phi) % 1.0) * 12.0
+        p = (((i + 7 * k) * s2) % 1.0) * 8.0 + 0.25
+        if lattice:
+            b, p = round(b * 2) / 2.0, max(0.5, round(p * 2) / 2.0)
+        pts.append([b, b + p])
+    return pts
+
+
+def medium_members(tier):
+    m = MEDIUM[tier]
+    return [(n, k, lat) for lat in (True, False) for n in m["n"] for k in range(m["k"])]
 
 
 def cases(tier):
+    mem = medium_members(tier)
+    for a in range(len(mem)):
+        for b in range(len(mem)):
+            if mem[a][2] == mem[b][2]:
+                yield {"kind": "medium", "a": list(mem[a]), "b": list(mem[b])}
+    for c in small_cases(tier):
+        yield c
+
+
+def small_cases(tier):
     for sp in BOUNDS[tier]:
         alphabet = [tuple(p) for p in sp["alphabet"]] if "alphabet" in sp else lattice_points(sp["G"])
         for c in pair_cases(alphabet, sp["n"]):
@@ -55,9 +91,45 @@ def check_value(ctx, sig, v, ref, tol, what, S, T):
     return ok
 
 
+def run_medium(case, ctx):
+    """Medium sizes (4..20 points): beyond brute force, reference = threshold search with scipy's
+    bipartite matching; hash order explored through a systematic family of rank orders."""
+    import persim
+
+    a, b = case["a"], case["b"]
+    S, T = medium_diagram(int(a[0]), int(a[1]), bool(a[2])), medium_diagram(int(b[0]), int(b[1]), bool(b[2]))
+    ref = om.bottleneck_large_ref(S, T)
+    ctx.state(("medium", a, b))
+    tol = 0.0 if a[2] else 1e-12
+    v, _ = call_warn(ctx, persim.bottleneck, farr(S), farr(T))
+    ctx.outcome(round(float(v), 9) if is_num(v) else repr(v))
+    check_value(ctx, "value-medium", v, ref, tol, "medium diagrams %r vs %r" % (a, b), S, T)
+    if a != b:
+        ctx.nontriv("medium_size_pair", key=("medium", a, b))
+    k = len(S) + len(T)
+    with _seam.installed() as live:
+        if live:
+            base = list(range(k))
+            orders = [base[r:] + base[:r] for r in range(0, k, max(1, k // 8))]
+            orders += [o[::-1] for o in orders]
+            orders += [base[::2] + base[1::2], base[1::2] + base[::2]]
+            for order in orders:
+                HKSeam.set_order(tuple(order))
+                vo, _ = call_warn(ctx, persim.bottleneck, farr(S), farr(T))
+                ctx.count("rank_orders_executed")
+                check_value(ctx, "value-hashorder", vo, ref, tol, "medium diagrams %r vs %r, rank order %r" % (a, b, order), S, T)
+    # with matching=True the distance must be the same
+    r2, _ = call_warn(ctx, persim.bottleneck, farr(S), farr(T), matching=True)
+    ctx.valid()
+    if not (isinstance(r2, tuple) and is_num(r2[0]) and abs(float(r2[0]) - ref) <= tol):
+        ctx.violation("value-medium", "bottleneck(matching=True) distance differs from the reference", observed=repr(r2[0]) if isinstance(r2, tuple) else repr(r2), expected=ref)
+
+
 def run_case(case, ctx):
     import persim
 
+    if case.get("kind") == "medium":
+        return run_medium(case, ctx)
     S, T = case["S"], case["T"]
     ref, info = om.bottleneck_ref(S, T)
     ctx.state((S, T))
